@@ -429,9 +429,10 @@ def sf_iff(E, st, args, kw):
     return [('val', st, mk_bool(ta == tb))]
 
 
-def sf_valid(E, st, args, kw):
+def sf_valid(E, st, args, kw, _depth=0):
+    """object invariant of the class contract, and (recursively) of the objects its fields own"""
     ref = args[0]
-    if not isinstance(ref, Ref):
+    if not isinstance(ref, Ref) or _depth > 4:
         return [('val', st, True)]
     h = st.heap[ref.oid]
     q = getattr(h, 'ghost_id', None) or (h.cls.qualname if h.cls else None)
@@ -446,6 +447,11 @@ def sf_valid(E, st, args, kw):
     conj = []
     for cl in cc.valid:
         conj.append(_as_z3(eval_clause(E, cl, st, {'self': ref})))
+    for fname, v in list(h.fields.items()):
+        if isinstance(v, Ref) and v.oid != ref.oid and st.heap[v.oid].kind == 'obj':
+            r = sf_valid(E, st, [v], kw, _depth + 1)[0][2]
+            if r is not True:
+                conj.append(_as_z3(r if isinstance(r, bool) else zbool(r)))
     return [('val', st, mk_bool(z3.And(conj)) if conj else True)]
 
 
